@@ -6,6 +6,15 @@ ALL = ["C%02d" % i for i in range(1, 37)]
 
 # id -> (design section, technique, level text, level note)
 CLAIMED = {
+ "C13": ("§2 C13", "who-may-construct for QuoteError, enclosing-condition matching of each refusal, rune-table agreement lexer/Quote (case-set extraction)",
+  "Decides that Quote refuses only at its four documented sites, each under its documented variant and rune condition; that every rune which starts a token in the lexer, separates words, escapes or starts a comment triggers quoting, with the unquoted return guarded by the three tests; and that the double-quote fallback escapes every rune the lexer treats specially inside double quotes. A token rune left unquoted yields more than one word for some string, so these are necessary conditions over all strings and variants.",
+  "Does not decide that the quoting styles expand back to the input in the real shells, nor the $'..' escape table. Trusts constant evaluation by go/types."),
+ "C18": ("§2 C18", "case-set extraction from switch statements and set inclusion between QuoteMeta, HasMeta and regexpNext, per mode block",
+  "Decides the 'writer's and reader's tables agree' part: QuoteMeta's scan and escape sets are equal, every byte HasMeta treats as meta and every rune with a special arm in regexpNext is escaped by QuoteMeta, and for each mode-dependent operator block of regexpNext both QuoteMeta and HasMeta account for it. A rune special to Regexp that QuoteMeta leaves alone makes QuoteMeta(s) match something other than s. Two obligations fail on today's tree (extended operators) and are listed as known findings with reproducers.",
+  "Does not decide that escaped patterns match exactly s; bracket expressions and classes are out of scope. Assumes regexpNext's default arm emits the rune literally (read)."),
+ "C34": ("§2 C34", "call-site classification (stable vs unstable sort), forbidden direct string orderings, structural shape of the dedup loop",
+  "Decides that the sort feeding duplicate elimination is stable, that sort, duplicate test and binary search order names only through the one comparator, that the earlier duplicate is the one removed and invalid pairs are dropped, that Each is a read-only in-order range and that FuncEnviron maps the empty value to unset. An unstable sort or a second ordering is invisible to the short lists the tests use but breaks 'last value wins' / Get on some list.",
+  "Does not decide the comparator's correctness for names that are prefixes of each other, nor the binary-search bounds (value-level). Trusts the documented behaviour of package slices."),
  "C01": ("§2 C01", "typed-AST switch exhaustiveness with who-may-construct, field-read coverage over the call graph from Print, sibling agreement printer/parser, CFG classification of error returns",
   "Decides that the printer cannot lose a part of the tree by construction: every emitting type switch reachable from Print covers every parser-constructible node type, every non-position, non-comment node field is read by printer code (the documented cosmetic rewrites excepted one symbol each), and Print fails only for the documented refusal, an unsupported root and flush errors. A field or node type the printer never looks at cannot survive Parse-Print-Parse, so this is a necessary condition over all inputs and option combinations.",
   "Does not decide quoting, spacing, separators or heredoc placement, i.e. that what is printed re-parses to the same tree. Trusts the reference graph (type-resolved identifiers, interface calls expanded to all implementations) and that the printer does not use reflection (checked)."),
